@@ -385,12 +385,36 @@ class SymNum(Sym):
     def __abs__(s):
         return SymNum(z3.If(s.t >= 0, s.t, -s.t))
 
+    @staticmethod
+    def _np_zero_div(num, den):
+        """numpy float semantics of a division by zero (x/0 = +-inf, 0/0 = nan) when the context asks for it
+        (code whose operands are numpy float64 in production, e.g. the values returned by pyodesys' f_cb)"""
+        c = Ctx.cur
+        if c is None or not getattr(c, "numpy_div", False) or not isinstance(den, SymNum):
+            return None
+        if SymBool(den.t == 0):
+            nt = lift(num)
+            if nt is None:
+                return float("nan")
+            if SymBool(toreal(nt) > 0):
+                return float("inf")
+            if SymBool(toreal(nt) < 0):
+                return float("-inf")
+            return float("nan")
+        return None
+
     def __truediv__(s, o):
         if s._isinf(o):
             return 0.0
+        z = s._np_zero_div(s, o)
+        if z is not None:
+            return z
         return s._bin(o, lambda a, b: toreal(a) / toreal(b))
 
     def __rtruediv__(s, o):
+        z = s._np_zero_div(o, s)
+        if z is not None:
+            return z
         if s._isinf(o):
             return s._signed_inf(o)
         return s._bin(o, lambda a, b: toreal(a) / toreal(b), True)
